@@ -162,10 +162,30 @@ class DF:
                     'iterrows', 'apply', 'iloc', 'loc'):
             return _DFM(self, name)
         if name == 'shape':
-            return (TOP, TOP)
+            return (RowCount(self), TOP)
         if name in ('values', 'index', 'columns'):
             return CT(name, self)
         return TOP
+
+
+class RowCount:
+    """Number of rows of an abstract frame (len(df), df.shape[0])."""
+
+    def __init__(self, df):
+        self.df = df
+
+    def __repr__(self):
+        return f'nrows({self.df!r})'
+
+
+class RowIdx:
+    """The position of the generic row in `for i in range(len(df))`."""
+
+    def __init__(self, df):
+        self.df = df
+
+    def __repr__(self):
+        return 'i_row'
 
 
 class _DFM:
